@@ -41,6 +41,8 @@ pub fn get(prop: &str, tier: &str) -> Option<Check> {
                 Batch { name: "server_tcp_model_faults", f: scen::server_tcp::run_model, cfg: cfg(Mode::LockStep, true, 0), runs: n(20_000, 500_000), real: REAL_SERVER_TCP, stub: STUB_SERVER_TCP },
                 Batch { name: "rtu_server_model", f: scen::rtu::run_server_model, cfg: cfg(Mode::LockStep, false, 0), runs: n(40_000, 1_000_000), real: REAL_SERVER_RTU, stub: STUB_SERVER_RTU },
                 Batch { name: "server_tcp_racy", f: scen::server_tcp::run_racy, cfg: cfg(Mode::Racy, true, 0), runs: n(30_000, 1_000_000), real: REAL_SERVER_TCP, stub: STUB_SERVER_TCP },
+                Batch { name: "rtu_server_edge", f: scen::rtu::run_server_edge, cfg: cfg(Mode::Racy, true, 0), runs: n(20_000, 500_000), real: REAL_SERVER_RTU, stub: STUB_SERVER_RTU },
+                Batch { name: "tls_server_sessions", f: scen::tls::run_tls_sessions, cfg: cfg(Mode::LockStep, false, 0), runs: n(3_000, 100_000), real: REAL_TLS, stub: STUB_TLS },
             ],
             assumptions: vec!["model::server encodes the Modbus application protocol as stated in C01 (DESIGN.md A.1)", "byte-count field of write-multiple requests is not part of the statement"],
         },
@@ -53,6 +55,7 @@ pub fn get(prop: &str, tier: &str) -> Option<Check> {
                 Batch { name: "rtu_server_model", f: scen::rtu::run_server_model, cfg: cfg(Mode::LockStep, false, 0), runs: n(40_000, 1_000_000), real: REAL_SERVER_RTU, stub: STUB_SERVER_RTU },
                 Batch { name: "tls_authz_model", f: scen::tls::run_authz_model, cfg: cfg(Mode::Racy, false, 0), runs: n(3_000, 100_000), real: REAL_TLS, stub: STUB_TLS },
                 Batch { name: "server_tcp_racy", f: scen::server_tcp::run_racy, cfg: cfg(Mode::Racy, true, 0), runs: n(30_000, 1_000_000), real: REAL_SERVER_TCP, stub: STUB_SERVER_TCP },
+                Batch { name: "rtu_server_edge", f: scen::rtu::run_server_edge, cfg: cfg(Mode::Racy, true, 0), runs: n(20_000, 500_000), real: REAL_SERVER_RTU, stub: STUB_SERVER_RTU },
             ],
             assumptions: vec!["handlers are the harness's instrumented point memory"],
         },
@@ -155,6 +158,7 @@ pub fn get(prop: &str, tier: &str) -> Option<Check> {
             batches: vec![
                 Batch { name: "rtu_server_model", f: scen::rtu::run_server_model, cfg: cfg(Mode::LockStep, false, 0), runs: n(80_000, 2_000_000), real: REAL_SERVER_RTU, stub: STUB_SERVER_RTU },
                 Batch { name: "server_tcp_model", f: scen::server_tcp::run_model, cfg: cfg(Mode::LockStep, false, 0), runs: n(40_000, 1_000_000), real: REAL_SERVER_TCP, stub: STUB_SERVER_TCP },
+                Batch { name: "rtu_server_edge", f: scen::rtu::run_server_edge, cfg: cfg(Mode::Racy, true, 0), runs: n(20_000, 500_000), real: REAL_SERVER_RTU, stub: STUB_SERVER_RTU },
             ],
             assumptions: vec!["checked without an authorization handler (the authz veto for unconfigured ids is C01's carve-out)"],
         },
@@ -205,6 +209,7 @@ pub fn get(prop: &str, tier: &str) -> Option<Check> {
                 Batch { name: "tls_handshake_stall_server", f: scen::tls::run_handshake_stall, cfg: cfg(Mode::Racy, true, 1), runs: n(600, 20_000), real: REAL_TLS, stub: STUB_TLS },
                 Batch { name: "backlog_vs_shutdown_tcp", f: scen::robust::run_backlog_vs_shutdown, cfg: cfg(Mode::Racy, true, 0), runs: n(20_000, 500_000), real: REAL_SERVER_TCP, stub: STUB_SERVER_TCP },
                 Batch { name: "backlog_vs_shutdown_rtu", f: scen::robust::run_backlog_vs_shutdown, cfg: cfg(Mode::Racy, true, 1), runs: n(5_000, 100_000), real: REAL_SERVER_RTU, stub: STUB_SERVER_RTU },
+                Batch { name: "rtu_server_edge", f: scen::rtu::run_server_edge, cfg: cfg(Mode::Racy, true, 0), runs: n(20_000, 500_000), real: REAL_SERVER_RTU, stub: STUB_SERVER_RTU },
             ],
             assumptions: vec!["peers that stop reading are injected by the C15 (sessions blocked writing), C13/C10 (client blocked writing), C03 and C20 scenarios rather than by the garbage workloads of this check", "a peer stalling inside the TLS handshake: scen::tls::run_handshake_stall (C15, C13 batches)"],
         },
